@@ -45,7 +45,7 @@ func init() {
 		Level: "fault_enumeration",
 		Rule: "E3 fault enumeration: (truncation) every frame of a 40-frame alphabet (4 message kinds × body lengths 0..200) × EVERY cut point k < len(frame) × reader chunkings {whole, 1 byte at a time, and every chunking with ≤1 (thorough ≤2) extra deviations: short read at any byte, data together with io.EOF, one empty read}, the same cuts through 11 standard-library reader types (bytes.Reader, bytes.Buffer, strings.Reader, bufio.Reader of 16/32/64/4096 bytes, io.LimitedReader, io.SectionReader, iotest.OneByteReader, iotest.DataErrReader - code may special-case a reader's dynamic type), and four frames with bodies of 1..3 MiB × cut points within ±1 of m·2^p (p = 9..22, m = 1..3, measured from the frame and from the body start) × {whole, 4 KiB, 64 KiB chunks}: never success, n = k, cause io.EOF for k=0, io.ErrUnexpectedEOF otherwise, either one for k=32; " +
 			"(corrupt header, in a memory-limited worker process) header-size field × body-size field alphabets (0, len±1, 2^31, 2^32, 2^40, 2^47, 2^48, 2^62, 2^63-1, 2^63, 2^63+1, 2^64-1 …) × version bytes {ASCII, 0xff, NUL} × {0, 5, all} body bytes present: header size ≠ 32 ⇒ ErrInvalidHeaderSize after exactly 32 bytes; otherwise success iff the declared body is completely present; never a panic, never a dead process; ReadHeader on every prefix 0..40 of arbitrary bytes returns normally; " +
-			"(writer faults) every frame × EVERY byte budget k ≤ len(frame) × {partial write with error, refusal with count 0}: Marshal returns that error and the count of accepted bytes, which are exactly frame[:count]; (read errors) a non-EOF error injected at every offset, alone or together with the last bytes, under whole and 1-byte chunkings and after every single chunking deviation (short read at any byte, one empty read): no success unless the frame was delivered completely, n = bytes delivered. A case is one (frame, fault point, mode); non-trivial when the fault point is inside the frame (0 < k < len).",
+			"(writer faults) every frame × EVERY byte budget k ≤ len(frame) × {partial write with error, refusal with count 0, full count TOGETHER with the error on the call that ends exactly at the budget (one-shot; later bytes are recorded)}: Marshal returns that error and the count of accepted bytes, which are exactly frame[:count]; (read errors) a non-EOF error injected at every offset, alone or together with the last bytes, under whole and 1-byte chunkings and after every single chunking deviation (short read at any byte, one empty read): no success unless the frame was delivered completely, n = bytes delivered. A case is one (frame, fault point, mode); non-trivial when the fault point is inside the frame (0 < k < len).",
 		Assumptions: []string{
 			"for a body-size field ≥ 2^63 (no valid frame can have such a body) only 'returns normally and does not succeed' is required; for smaller declared sizes that exceed the stream the truncation clause applies (n = bytes available)",
 			"the worker process runs under `ulimit -v`; a worker that dies is reported for the case it announced before executing it",
@@ -156,14 +156,27 @@ func c07TruncStd(f c06Frame, k int, kind string) (got, want string) {
 
 type c07Writer struct {
 	budget int
-	mode   string // partial | refuse
+	mode   string // partial | refuse | fullerr
 	got    []byte
 	failed bool
+	atFail int
 }
 
 func (w *c07Writer) Write(p []byte) (int, error) {
 	if len(p) == 0 {
 		return 0, nil
+	}
+	if w.mode == "fullerr" {
+		// accepts everything; the Write call that ends EXACTLY at the budget returns its full
+		// count together with the error (legal for an io.Writer), once; whatever is handed over
+		// afterwards is accepted and recorded, so a caller that carries on is seen
+		w.got = append(w.got, p...)
+		if !w.failed && len(w.got) == w.budget {
+			w.failed = true
+			w.atFail = len(w.got)
+			return len(p), c07ErrInjected
+		}
+		return len(p), nil
 	}
 	if len(p) <= w.budget {
 		w.budget -= len(p)
@@ -195,6 +208,11 @@ func c07WriterFault(f c06Frame, budget int, mode string) (got, want string) {
 	we := "nil"
 	if w.failed {
 		we = "injected"
+	}
+	if mode == "fullerr" && w.failed {
+		// the writer failed after accepting atFail bytes: that count, that error, nothing more emitted
+		want = fmt.Sprintf("n=%d err=injected prefix=true emitted=%d", w.atFail, w.atFail)
+		return fmt.Sprintf("n=%d err=%s prefix=%v emitted=%d", n, errName(err), bytes.Equal(w.got, wire[:min(accepted, len(wire))]) && accepted <= len(wire), accepted), want
 	}
 	want = fmt.Sprintf("n=%d err=%s prefix=true", accepted, we)
 	return fmt.Sprintf("n=%d err=%s prefix=%v", n, errName(err), bytes.Equal(w.got, wire[:min(accepted, len(wire))]) && accepted <= len(wire)), want
@@ -450,7 +468,7 @@ func c07Run(c *mc.Ctx) {
 		l := int64(len(c06Wire(f)))
 		c.Expect(2 * l)                         // truncation: whole + 1-byte chunking for every k < len
 		c.Expect(int64(len(c07StdReaders)) * l) // the same cuts through every standard-library reader type
-		c.Expect(2 * (l + 1))                   // writer faults: every budget 0..len × 2 modes
+		c.Expect(3 * (l + 1))                   // writer faults: every budget 0..len × 3 modes
 		c.Expect(4 * (l + 1))                   // read errors: every offset 0..len × alone/together × 2 chunkings
 	}
 	c.Par(len(frames), func(fi int) {
@@ -508,7 +526,7 @@ func c07Run(c *mc.Ctx) {
 		}
 		c.Add("truncation_cases", evals)
 		for k := 0; k <= len(wire); k++ {
-			for mi, mode := range []string{"partial", "refuse"} {
+			for mi, mode := range []string{"partial", "refuse", "fullerr"} {
 				g, w := c07WriterFault(f, k, mode)
 				if g != w {
 					c.Fail(2<<48|int64(fi)<<32|int64(k)<<2|int64(mi), "writer", "writer", c07Case{Frame: &fc, Budget: k, Mode: mode}, g, w)
